@@ -86,6 +86,10 @@ def register(reg):
         return Obj(objs.cls_of(E, "trie.hexary", "HexaryTrie"), {})
     _mk(reg, H + "__init__", ["self", "db", "root_hash", "prune", "ref_count"], {"db": "db", "prune": "bool"},
         mk_blank_hexary, nb("root_hash"), name="root-not-bytes", ctor=True)
+    _mk(reg, H + "__init__", ["self", "db", "root_hash", "prune", "ref_count"],
+        {"db": "db", "root_hash": "bytes", "prune": lambda E: False,
+         "ref_count": lambda E: E.fresh_dict("ref_count", "bytes", "int")},
+        mk_blank_hexary, lambda E, a: z3.BoolVal(True), raises=ValueError, name="ref-count-to-non-pruning-trie", ctor=True)
     # snapshot from a pruning trie
     _mk(reg, H + "at_root", ["self", "at_root_hash"], {}, lambda E: objs.mk_hexary(E, pruning=True),
         lambda E, a: z3.BoolVal(True), name="pruning-trie-refuses-snapshot", context=True)
